@@ -55,8 +55,8 @@ def rule_functions(mods):
 
 def call_rule(fn, src):
     kw = {}
-    for name, p in inspect.signature(fn).parameters.items():
-        if name == "source" or p.default is not inspect.Parameter.empty:
+    for i, (name, p) in enumerate(inspect.signature(fn).parameters.items()):
+        if i == 0 or p.default is not inspect.Parameter.empty:
             continue
         if p.kind in (p.VAR_POSITIONAL, p.VAR_KEYWORD):
             continue
@@ -83,6 +83,7 @@ def harvest(wd: Path):
 
 
 _ADDR = re.compile(r"0x[0-9a-fA-F]+")
+_NONDET = re.compile(r"\b(random|time|datetime|uuid|secrets|urandom|getpid|id|hash|threading|asyncio)\b")
 
 
 def run_exec(src: str, cwd: str):
@@ -100,28 +101,73 @@ def run_exec(src: str, cwd: str):
     return "exc:" + last.split(":")[0], out
 
 
-def compare_exec(before: str, after: str, cwd: str | None = None, complete_imports=None):
+# Prelude for repository examples that are not closed programs (undefined free names): plain ints / lists / dicts /
+# functions only, no imports of names a rule may introduce.  The prelude of a case is the concatenation (fixed order)
+# of the definitions of those PRELUDE_DEFS names the ORIGINAL text loads; the same text is put in front of the
+# original and of the rule's output, and the pair only counts when the original then terminates normally.
+PRELUDE_DEFS: dict = {
+    **{n: f"{n} = {v}\n" for n, v in (
+        ("a", 1), ("b", 2), ("c", 3), ("e", 4), ("h", 500), ("i", 0), ("j", 1), ("k", 2), ("m", 3), ("n", 4),
+        ("p", 0), ("q", 1), ("r", 2), ("s", 3), ("t", 1), ("u", 2), ("v", 0), ("w", 7), ("x", 5), ("y", -2), ("z", 0),
+        ("A", 3), ("B", 2), ("C", 1), ("N", 4), ("hqx", 1000), ("one", 1), ("two", 2), ("three", 3),
+        ("left", "[[1, 2], [3, 4]]"), ("right", "[[5, 6], [7, 8]]"),
+        ("d", "{1: 2, 3: 0, 0: 5}"), ("dd", "{1: 2}"), ("l", "[3, 0, 2]"), ("lst", "[3, 0, 2]"), ("values", "[3, 0, 2]"),
+        ("iterator", "[(1, 2), (0, 3)]"), ("iterable", "[3, 0, 2]"), ("items", "[3, 0, 2]"), ("data", "[3, 0, 2]"),
+        ("seq", "[3, 0, 2]"), ("xs", "[3, 0, 2]"), ("ys", "[1, 1, 0]"), ("args", "(1, 2)"), ("kwargs", "{}"),
+        ("baz", 0), ("spam", "'spam'"), ("eggs", "''"), ("name", "'name'"), ("text", "'a b'"), ("value", 3),
+    )},
+    **{n: f"def {n}(*args, **kwargs):\n    return len(args) + len(kwargs)\n" for n in (
+        "f", "g", "foo", "bar", "func", "function", "do_stuff", "doing_other_stuff", "do_something", "sketchy_function",
+        "complicated_condition", "some_function", "fn", "callback", "process", "test", "condition", "wombat")},
+    **{n: f"import {n}\n" for n in ("ast", "functools", "itertools", "logging", "math", "os", "re", "sys")},
+    "logger": "import logging as _logging_\nlogger = _logging_.getLogger('sweep')\n",
+    "log": "import logging as _logging_\nlog = _logging_.getLogger('sweep')\n",
+    "iter_user_logins": "def iter_user_logins():\n    return iter([('u', 1), ('v', 0)])\n",
+}
+
+
+def prelude_for(src: str) -> str:
+    try:
+        with warnings.catch_warnings():
+            warnings.simplefilter("ignore")
+            tree = ast.parse(src)
+    except (SyntaxError, ValueError):
+        return ""
+    loaded = {n.id for n in ast.walk(tree) if isinstance(n, ast.Name) and isinstance(n.ctx, ast.Load)}
+    return "".join(text for name, text in PRELUDE_DEFS.items() if name in loaded)
+
+
+def compare_exec(before: str, after: str, cwd: str | None = None, complete_imports=None, use_prelude: bool = True):
     """complete_imports: fixes.add_missing_imports (the stage of format_code that adds `import collections` etc. for
     names a rule introduced); when the output fails with NameError it is tried again after that stage and the result
-    is reported as class 'same-after-import-completion' (matched by finding sig=needs_import_completion)."""
+    is reported as class 'same-after-import-completion' (matched by finding sig=needs_import_completion).
+    use_prelude: when the original raises NameError, before and after are tried again behind prelude_for(before)."""
     cwd = cwd or str(common.WORK)
     a = run_exec(before, cwd)
+    pre = ""
+    if a[0] == "exc:NameError" and use_prelude:
+        pre = prelude_for(before)
+        if pre:
+            a = run_exec(pre + before, cwd)
     if a[0] != "ok":
-        return {"class": "not-executable", "before_status": a[0]}
-    b = run_exec(after, cwd)
+        return {"class": "not-executable", "before_status": a[0], "prelude": bool(pre)}
+    b = run_exec(pre + after, cwd)
     if a == b:
-        return {"class": "same", "stdout": a[1][:200]}
-    if run_exec(before, cwd) != a:
-        return {"class": "nondeterministic"}      # outside the class of closed deterministic programs
+        return {"class": "same", "stdout": a[1][:200], "prelude": bool(pre)}
+    if _NONDET.search(before) or run_exec(pre + before, cwd) != a:
+        return {"class": "nondeterministic", "prelude": bool(pre)}      # outside the class of closed deterministic programs
     res = {"class": "DIFFERENT", "before_status": a[0], "before_stdout": a[1][:600],
-           "after_status": b[0], "after_stdout": b[1][:600]}
+           "after_status": b[0], "after_stdout": b[1][:600], "prelude": bool(pre)}
     if b[0] == "exc:NameError" and complete_imports is not None:
         try:
             with common.quiet():
                 after2 = complete_imports(after)
-            b2 = run_exec(after2, cwd)
+            b2 = run_exec(pre + after2, cwd)
         except Exception:  # noqa
             b2 = None
+        if b2 is not None and b2[0] == "exc:ModuleNotFoundError":
+            # the completed import is a third-party module that is not installed here (numpy, pandas): no verdict
+            return {"class": "after-needs-uninstalled-module", "prelude": bool(pre)}
         res["same_after_import_completion"] = b2 == a
     return res
 
@@ -188,6 +234,19 @@ def sweep(run, mods, wd: Path, kf, hist: Counter, only=None):
     # 1. apply the rules (in process, sequential: rules share the parse cache)
     applied = []
     per_rule = {n: Counter() for n in rules}
+    not_rewrite = set()      # functions whose result is not a str (tracing.get_imported_names, ...): not rewrite rules
+    for name in sorted(rules):
+        probe = "x = 1\nprint(x)\n"
+        mods["core"].parse.cache_clear()
+        for arg in (probe, ast.parse(probe)):
+            try:
+                with common.quiet():
+                    out = call_rule(rules[name], arg)
+            except Exception:  # noqa
+                continue
+            if not isinstance(out, str):
+                not_rewrite.add(name)
+            break
     for (name, origin, src) in jobs:
         mods["core"].parse.cache_clear()
         try:
@@ -203,7 +262,10 @@ def sweep(run, mods, wd: Path, kf, hist: Counter, only=None):
         except Exception as e:  # noqa   (totality is C04's business)
             per_rule[name]["rule-raised:" + type(e).__name__] += 1
             continue
-        if not isinstance(out, str) or out == src:
+        if not isinstance(out, str):
+            not_rewrite.add(name)
+            continue
+        if out == src:
             per_rule[name]["unchanged"] += 1
             continue
         per_rule[name]["fired"] += 1
@@ -217,10 +279,16 @@ def sweep(run, mods, wd: Path, kf, hist: Counter, only=None):
     with ThreadPoolExecutor(max_workers=min(8, common.NCPU)) as ex:
         results = list(ex.map(work, applied))
     failures, known, known_example = [], Counter(), {}
-    executions = 0
+    executions = with_prelude = 0
+    for n in not_rewrite:
+        rules.pop(n)
+        per_rule.pop(n)
     for (name, origin, src, out), res in zip(applied, results):
-        executions += {"not-executable": 1, "same": 2}.get(res["class"], 3)
+        executions += {"not-executable": 1, "same": 2}.get(res["class"], 3) + (1 if res.get("prelude") else 0)
         per_rule[name][res["class"]] += 1
+        if res.get("prelude") and res["class"] in ("same", "DIFFERENT"):
+            per_rule[name]["with-prelude"] += 1
+            with_prelude += 1
         if res["class"] != "DIFFERENT":
             continue
         case = {"rule": name, "site": name, "origin": origin, "source": src, "output": out, "result": res}
@@ -237,6 +305,8 @@ def sweep(run, mods, wd: Path, kf, hist: Counter, only=None):
         "trigger_programs": sum(len(v) for v in TRIGGERS.values()),
         "applications_that_changed_the_text": len(applied),
         "executed_pairs_compared": sum(per_rule[n]["same"] + per_rule[n]["DIFFERENT"] for n in rules),
+        "executed_with_prelude": with_prelude,
+        "not_rewrite_rules": sorted(not_rewrite),
         "not_executable_before": sum(per_rule[n]["not-executable"] for n in rules),
         "different": sum(per_rule[n]["DIFFERENT"] for n in rules),
         "rules_without_any_executed_pair": sorted(n for n in rules if not (per_rule[n]["same"] + per_rule[n]["DIFFERENT"])),
